@@ -196,7 +196,7 @@ class TorchBackend(BaseBackend):
         # BaseBackend._solve_euler for the rationale (review §4.2).
         t0_int = int(t0)
         for i in range(steps):
-            if i % store_step == 0:
+            if i % store_step == 0 and idx < store_steps:
                 state_rec[idx, :] = y
                 idx += 1
             step = i + t0_int
